@@ -141,8 +141,16 @@ func Family(tp *tape.Tape) ([]string, map[string]string) {
 // repeated (a glob or a scenario re-evaluates the key) and some sharing a position.
 func (g *gen) errorRich() {
 	tp := g.tp
-	if tp.Chance(1, 2, "err.array") {
+	// Mistakes of the IR stage (unresolved substitutions) end a compilation before the graph
+	// compiler runs; two scripts in five hold only mistakes that the graph compiler finds.
+	stage := tp.Weighted([]int{2, 2, 1}, "err.stage") // 0 IR-stage only, 1 graph-compiler stage only, 2 both
+	ir := stage != 1
+	if ir && tp.Chance(1, 2, "err.array") {
 		g.sb.WriteString("ex.class: [${nope1}; ${nope2}; ${nope3}]\n")
+	}
+	if !ir {
+		g.errorRichCompileStage()
+		return
 	}
 	if tp.Chance(1, 2, "err.glob") {
 		g.sb.WriteString("*.label: ${missing_in_glob}\n")
@@ -153,10 +161,21 @@ func (g *gen) errorRich() {
 	if tp.Chance(1, 2, "err.scenario") {
 		g.sb.WriteString("scenarios: {\n  s1: {\n    extra: ${only_in_s1}\n  }\n  s2: {\n    extra: ${only_in_s2}\n  }\n}\n")
 	}
+	if tp.Chance(1, 3, "err.spreadvar") {
+		g.sb.WriteString("ew: {\n  ...${not_a_map}\n}\n")
+	}
+	if stage == 0 {
+		return
+	}
+	g.errorRichCompileStage()
+}
+
+func (g *gen) errorRichCompileStage() {
+	tp := g.tp
 	if tp.Chance(1, 3, "err.misc") {
 		g.sb.WriteString("ez.shape: no_such_shape\nez.style.opacity: 7\nez -> ez.missing.deep: {\n  style.stroke-width: 99\n}\n")
 	}
-	if tp.Chance(1, 2, "err.boards") {
+	if tp.Chance(2, 3, "err.boards") {
 		// sibling boards that each hold a mistake only the graph compiler finds (after the
 		// IR is built): the error list is shared by all boards
 		kind := []string{"layers", "scenarios", "steps"}[tp.Draw(3, "err.boards.kind")]
@@ -166,9 +185,6 @@ func (g *gen) errorRich() {
 			fmt.Fprintf(&g.sb, "  eb%d: {\n    %s\n  }\n", i, strings.ReplaceAll(mistakes[tp.Draw(len(mistakes), "err.boards.which")], "bx", fmt.Sprintf("bx%d", i)))
 		}
 		g.sb.WriteString("}\n")
-	}
-	if tp.Chance(1, 3, "err.spreadvar") {
-		g.sb.WriteString("ew: {\n  ...${not_a_map}\n}\n")
 	}
 }
 
@@ -343,6 +359,15 @@ func Script(tp *tape.Tape) (string, map[string]string) { return script(tp, false
 // that end in a compile error.
 func RenderScript(tp *tape.Tape) (string, map[string]string) { return script(tp, true) }
 
+// RenderScriptSelfLoops is RenderScript with connections from a shape to itself always present.
+func RenderScriptSelfLoops(tp *tape.Tape) (string, map[string]string) {
+	forceSelfLoops = true
+	defer func() { forceSelfLoops = false }()
+	return script(tp, true)
+}
+
+var forceSelfLoops bool // (generation is single-threaded: one tape, one goroutine)
+
 func script(tp *tape.Tape, render bool) (string, map[string]string) {
 	g := &gen{tp: tp}
 	if render && tp.Chance(3, 4, "gen.renderfeatures") {
@@ -362,6 +387,14 @@ func script(tp *tape.Tape, render bool) (string, map[string]string) {
 	g.container("", 0, &ids, "")
 	if tp.Chance(1, 4, "gen.glob") {
 		g.sb.WriteString("*.style.font-color: red\n**.style.stroke-dash: 2\n")
+	}
+	if render && (tp.Chance(1, 3, "gen.selfloops") || forceSelfLoops) {
+		// connections from a shape to itself, with short, long and multi-line labels (a
+		// layout engine reserves room for them; how much depends on the largest label)
+		labels := []string{"", ": again", ": retries until the upstream service finally answers", ": a\\nb\\nc\\nd\\ne\\nf", ": x"}
+		for i, n := 0, 1+tp.Draw(3, "gen.selfloops.n"); i < n; i++ {
+			fmt.Fprintf(&g.sb, "sl%d -> sl%d%s\n", i, i, labels[tp.Draw(len(labels), "gen.selfloops.label")])
+		}
 	}
 	if tp.Chance(1, 4, "gen.table") {
 		g.sb.WriteString("tbl: {\n  shape: sql_table\n  id: int {constraint: primary_key}\n  name: varchar\n  owner: int {constraint: foreign_key}\n  created: timestamp\n}\n")
